@@ -1,2 +1,159 @@
-(* C12 — statements only; proofs in proofs/P_C12.v. *)
+(* C12 — Streaming delivers intact frames in order, never stalls, and stops promptly.
+   Statements only; proofs in proofs/P_C12.v.  Model: model/StreamLoop.v (transition system of
+   StreamingLoop::run, StreamHandle start / stop, the payload and send-back channels, the
+   cancellation rendezvous, the AsyncPool ledger and a scripted bulk-in endpoint; `step true` is the
+   code after the two fix: commits, `step false` the pinned code).  Frame semantics: spec/FrameSpec.v.
+   All theorems are for ALL device scripts (made of bytes), ALL receivers / controllers and ALL
+   interleavings: every label list accepted by `step` from the initial state. *)
+From Coq Require Import Sorted.
 From Cam Require Import Outcome Bytes Ack Stream Payload StreamLoop FrameSpec P_C12.
+
+(* one iteration, for every content of the (reused) buffers: what the loop sends after all its
+   transfers completed is exactly what the frame made of these transfers gives -- PayloadBuilder::build
+   of model/Payload.v (C11) applied to that leader, that trailer and the bytes of that frame; it never
+   panics and hands the buffers back with their sizes *)
+Theorem C12_frame_assembly : forall q lbuf tbuf buf ds,
+  prm_ok q = true -> zlen lbuf = q_leader q -> zlen tbuf = q_trailer q -> bufok q buf ->
+  fits ds (slots q) ->
+  exists f, finish true q lbuf tbuf buf ds = Some f /\
+    item_view (f_item f) = frame_item q ds /\ item_view (f_item f) <> VPanic /\
+    zlen (f_lbuf f) = q_leader q /\ zlen (f_tbuf f) = q_trailer q /\
+    (forall b, f_keep f = Some b -> bufok q b).
+Proof. exact finish_spec. Qed.
+Print Assumptions C12_frame_assembly.
+
+(* every Ok payload ever accepted by the payload channel is the frame made of nslots consecutive
+   transfers of the device script, all completed, starting where its iteration began: its own
+   leader, payload and trailer, never a mixture; its views do not panic *)
+Theorem C12_no_mixture : forall sc cp cb ls s,
+  script_ok sc -> run true (init sc cp cb) ls = Some s ->
+  forall e p, In e (g_hist (st_g s)) -> a_item e = IOk p ->
+  exists ds v, a_ds e = Some ds /\
+    firstn (nslots (a_prm e)) (skipn (a_start e) sc) = map XData ds /\
+    fits ds (slots (a_prm e)) /\
+    view_of p = Ok v /\ frame_item (a_prm e) ds = VOk v.
+Proof. exact no_mixture_ok. Qed.
+Print Assumptions C12_no_mixture.
+
+(* the same for every item (errors included) *)
+Theorem C12_history_sound : forall sc cp cb ls s,
+  script_ok sc -> run true (init sc cp cb) ls = Some s ->
+  forall e, In e (g_hist (st_g s)) -> entry_ok sc e.
+Proof. exact no_mixture. Qed.
+Print Assumptions C12_history_sound.
+
+(* whatever the receiver can take out of the payload channel is in that history *)
+Theorem C12_received_from_history : forall sc cp cb ls s,
+  script_ok sc -> run true (init sc cp cb) ls = Some s ->
+  forall it, In it (st_pq s) -> exists e, In e (g_hist (st_g s)) /\ a_item e = it.
+Proof. exact received_in_hist. Qed.
+Print Assumptions C12_received_from_history.
+
+(* delivered frames are in the order sent, without duplication: the script positions of the
+   delivered complete frames strictly increase *)
+Theorem C12_order_no_dup : forall sc cp cb ls s,
+  script_ok sc -> run true (init sc cp cb) ls = Some s ->
+  StronglySorted lt (map a_start (filter complete (g_hist (st_g s)))).
+Proof. exact order_no_dup. Qed.
+Print Assumptions C12_order_no_dup.
+
+(* all are delivered when there is room: every iteration whose transfers all completed ends in a
+   try_send of the item of its frame (or is about to), and when no try_send found the channel full or
+   closed everything the loop tried to send is in the channel's history *)
+Theorem C12_every_frame_attempted : forall sc cp cb ls s,
+  script_ok sc -> run true (init sc cp cb) ls = Some s ->
+  forall q i ds, In (q, i, ds) (g_done (st_g s)) ->
+  (exists e, In e (g_att (st_g s)) /\ a_prm e = q /\ a_start e = i /\ a_ds e = Some ds /\
+             item_view (a_item e) = frame_item q ds) \/
+  (exists it keep, st_pos s = LSend it keep /\ st_prm s = q /\ g_istart (st_g s) = i /\
+             g_cur (st_g s) = Some ds /\ item_view it = frame_item q ds).
+Proof. exact all_attempted. Qed.
+Print Assumptions C12_every_frame_attempted.
+
+Theorem C12_all_delivered_if_room : forall sc cp cb ls s,
+  script_ok sc -> run true (init sc cp cb) ls = Some s ->
+  g_fail (st_g s) = 0%nat -> g_hist (st_g s) = g_att (st_g s).
+Proof. exact delivered_if_room. Qed.
+Print Assumptions C12_all_delivered_if_room.
+
+(* a running loop always has an enabled step of its own, whatever the receiver, the controller
+   and the device do or do not do: it uses try_ operations only *)
+Theorem C12_loop_never_blocks : forall sc cp cb ls s,
+  script_ok sc -> run true (init sc cp cb) ls = Some s ->
+  loop_active s = true -> exists l s', is_loop_label l = true /\ step true s l = Some s'.
+Proof. exact never_blocks_reach. Qed.
+Print Assumptions C12_loop_never_blocks.
+
+(* malformed frames and transfer errors never terminate the loop by a panic *)
+Theorem C12_loop_never_panics : forall sc cp cb ls s,
+  script_ok sc -> run true (init sc cp cb) ls = Some s -> st_pos s <> LPanic.
+Proof. exact no_loop_panic. Qed.
+Print Assumptions C12_loop_never_panics.
+
+(* a stop request that has registered is taken within 2 * (transfers per frame) + 4 steps of the
+   loop (a bound on the loop's own steps, whatever else happens in between); the check leaves no
+   loop, an empty transfer ledger and the message taken *)
+Theorem C12_stop_bounded : forall sc cp cb ls0 s,
+  script_ok sc -> run true (init sc cp cb) ls0 = Some s ->
+  st_cancel s = CWaiting ->
+  forall ls s', run true s ls = Some s' -> (2 * nslots (st_prm s) + 4 < nloop ls)%nat ->
+  exists ls1 ls2 s0 s1, ls = ls1 ++ LCancel 1 :: ls2 /\ (nloop ls1 <= 2 * nslots (st_prm s) + 4)%nat /\
+    run true s ls1 = Some s0 /\ step true s0 (LCancel 1) = Some s1 /\
+    st_pos s1 = LIdle /\ st_pending s1 = [] /\ st_cancel s1 = CTaken.
+Proof. exact stop_bounded_reach. Qed.
+Print Assumptions C12_stop_bounded.
+
+(* once the message is taken the controller's send returns *)
+Theorem C12_stop_returns : forall sc cp cb ls s,
+  script_ok sc -> run true (init sc cp cb) ls = Some s -> st_cancel s = CTaken ->
+  exists s', step true s KStopRet = Some s' /\ st_ctl s' = KIdle /\ st_cancel s' = CNone /\ st_pos s' = LIdle.
+Proof. exact stop_returns_reach. Qed.
+Print Assumptions C12_stop_returns.
+
+(* after the loop has left, nothing is submitted, polled or sent, nothing more is delivered and
+   the ledger does not change, until a start *)
+Theorem C12_stopped_quiet : forall s l s', st_pos s = LIdle -> step true s l = Some s' ->
+  is_loop_label l = false /\ st_pending s' = st_pending s /\ g_hist (st_g s') = g_hist (st_g s) /\
+  (st_pos s' = LIdle \/ exists q, l = KStart q).
+Proof. exact stopped_quiet. Qed.
+Print Assumptions C12_stopped_quiet.
+
+Theorem C12_no_transfer_outstanding : forall sc cp cb ls s,
+  script_ok sc -> run true (init sc cp cb) ls = Some s ->
+  (st_pos s = LIdle \/ st_pos s = LHead) -> st_pending s = [].
+Proof. exact ledger_empty_when_idle. Qed.
+Print Assumptions C12_no_transfer_outstanding.
+
+(* a stopped handle can be started again: fresh buffers, nothing in flight; the resulting state is
+   again reachable from the initial one, so every theorem above holds for the new run *)
+Theorem C12_restart : forall sc cp cb ls s q,
+  script_ok sc -> run true (init sc cp cb) ls = Some s ->
+  st_ctl s = KIdle -> st_cancel s = CNone -> prm_ok q = true ->
+  exists s', run true (init sc cp cb) (ls ++ [KStart q]) = Some s' /\ st_pos s' = LHead /\ st_prm s' = q /\
+    st_pending s' = [] /\ st_pbo s' = None /\ st_lbuf s' = zeros (q_leader q) /\
+    st_tbuf s' = zeros (q_trailer q) /\ st_cancel s' = CNone.
+Proof. exact restart_reach. Qed.
+Print Assumptions C12_restart.
+
+(* the pinned code (step false) hands over mixtures: an empty trailer transfer, an empty leader
+   transfer, a hole in the payload (witnesses by computation, replayed on the real code) *)
+Theorem C12_no_mixture_v0_refuted_trailer : mixture_in wit_trailer_script wit_trailer_labels.
+Proof. exact no_mixture_v0_refuted_trailer. Qed.
+Print Assumptions C12_no_mixture_v0_refuted_trailer.
+
+Theorem C12_no_mixture_v0_refuted_leader : mixture_in wit_leader_script wit_leader_labels.
+Proof. exact no_mixture_v0_refuted_leader. Qed.
+Print Assumptions C12_no_mixture_v0_refuted_leader.
+
+Theorem C12_no_mixture_v0_refuted_hole : mixture_in wit_hole_script wit_hole_labels.
+Proof. exact no_mixture_v0_refuted_hole. Qed.
+Print Assumptions C12_no_mixture_v0_refuted_hole.
+
+(* non-vacuity: the same three executions are executions of the repaired code, which reports the
+   second frame as an error *)
+Theorem C12_fixed_rejects_witnesses :
+  forall sc ls, In (sc, ls) [(wit_trailer_script, wit_trailer_labels); (wit_leader_script, wit_leader_labels);
+                             (wit_hole_script, wit_hole_labels)] ->
+  exists s, run true (init sc 4 4) ls = Some s /\ map a_item (skipn 1 (g_hist (st_g s))) = [IErr C_INVALID_PAYLOAD].
+Proof. exact fixed_rejects_witnesses. Qed.
+Print Assumptions C12_fixed_rejects_witnesses.
